@@ -171,6 +171,8 @@ Definition eqb_dump (s : @st (list Z)) (dump : option (list (nat * list Z))) : b
   | _, _ => false
   end.
 
-Definition agree (ops : list (@op (list Z))) (outs : list (@out (list Z)))
-           (dump : option (list (nat * list Z))) : bool :=
-  let (s, xs) := run vaddZ None ops in eqb_outs xs outs && eqb_dump s dump.
+Definition agree_from (init : @st (list Z)) (ops : list (@op (list Z)))
+           (outs : list (@out (list Z))) (dump : option (list (nat * list Z))) : bool :=
+  let (s, xs) := run vaddZ init ops in eqb_outs xs outs && eqb_dump s dump.
+
+Definition agree := agree_from None.
